@@ -628,6 +628,7 @@ func main() {
 	}
 
 	accesses := collectAccesses(files, names)
+	deepWrites := collectDeepWrites(files)
 
 	// ---------------- emit Generated.v ----------------
 	var b strings.Builder
@@ -753,7 +754,16 @@ func main() {
 		}
 		w("  {| ac_func := %s; ac_recv := %s; ac_field := %s; ac_write := %v; ac_locked := %v; ac_in_go := %v; ac_in_loop := %v; ac_kind := %s |}", coqStr(a.Func), coqStr(a.Recv), coqStr(a.Field), a.Write, a.Locked, a.InGo, a.InLoop, coqStr(a.Kind))
 	}
-	w("\n].\n")
+	w("\n].\n\n")
+	w("(* assignments in methods of Server / Client that go THROUGH a pointer held in one of the receiver's fields (or a local copy of\n   that pointer): function, receiver type, field, assigned path - memory the caller supplied (TLSConfig, Log) *)\n")
+	w("Definition gen_deep_writes : list (string * string * string * string) := [")
+	for i, d := range deepWrites {
+		if i > 0 {
+			w("; ")
+		}
+		w("(%s, %s, %s, %s)", coqStr(d[0]), coqStr(d[1]), coqStr(d[2]), coqStr(d[3]))
+	}
+	w("].\n")
 	if err := writeIfChanged(outV, b.String()); err != nil {
 		fmt.Fprintln(os.Stderr, err)
 		os.Exit(1)
@@ -904,6 +914,132 @@ func collectLocals(fd *ast.FuncDecl, locals map[string]bool) {
 		}
 		return true
 	})
+}
+
+// collectDeepWrites: for every method of Server and Client, the assignments (=, op=, ++/--) whose target is reached through a
+// pointer-typed field of the receiver - recv.F.g = .., recv.F.g[i] = .., *recv.F = .. - or through a local variable that
+// was assigned that pointer (x := recv.F; x.g = ..).  A local that MAY hold the field's pointer counts (no flow sensitivity).
+func collectDeepWrites(files []*ast.File) [][4]string {
+	ptrFields := map[string]map[string]bool{}
+	for _, f := range files {
+		for _, d := range f.Decls {
+			gd, ok := d.(*ast.GenDecl)
+			if !ok {
+				continue
+			}
+			for _, sp := range gd.Specs {
+				ts, ok := sp.(*ast.TypeSpec)
+				if !ok || (ts.Name.Name != "Server" && ts.Name.Name != "Client") {
+					continue
+				}
+				st, ok := ts.Type.(*ast.StructType)
+				if !ok {
+					continue
+				}
+				m := map[string]bool{}
+				for _, fl := range st.Fields.List {
+					if _, isPtr := fl.Type.(*ast.StarExpr); isPtr {
+						for _, n := range fl.Names {
+							m[n.Name] = true
+						}
+					}
+				}
+				ptrFields[ts.Name.Name] = m
+			}
+		}
+	}
+	var out [][4]string
+	for _, f := range files {
+		for _, d := range f.Decls {
+			fd, ok := d.(*ast.FuncDecl)
+			if !ok || fd.Body == nil || fd.Recv == nil || len(fd.Recv.List) != 1 || len(fd.Recv.List[0].Names) != 1 {
+				continue
+			}
+			recvT := strings.TrimPrefix(exprString(fd.Recv.List[0].Type), "*")
+			pf := ptrFields[recvT]
+			if pf == nil {
+				continue
+			}
+			recvN := fd.Recv.List[0].Names[0].Name
+			aliases := map[string]string{}
+			unparen := func(e ast.Expr) ast.Expr {
+				for {
+					p, ok := e.(*ast.ParenExpr)
+					if !ok {
+						return e
+					}
+					e = p.X
+				}
+			}
+			// the pointer field an expression denotes: recv.F itself or a local alias of it
+			ptrOf := func(e ast.Expr) (string, bool) {
+				e = unparen(e)
+				if se, ok := e.(*ast.SelectorExpr); ok {
+					if id, ok := se.X.(*ast.Ident); ok && id.Name == recvN && pf[se.Sel.Name] {
+						return se.Sel.Name, true
+					}
+				}
+				if id, ok := e.(*ast.Ident); ok {
+					if fld, ok := aliases[id.Name]; ok {
+						return fld, true
+					}
+				}
+				return "", false
+			}
+			// is the assignment target reached through such a pointer?
+			var through func(e ast.Expr) (string, bool)
+			through = func(e ast.Expr) (string, bool) {
+				switch x := unparen(e).(type) {
+				case *ast.SelectorExpr:
+					if fld, ok := ptrOf(x.X); ok {
+						return fld, true
+					}
+					return through(x.X)
+				case *ast.IndexExpr:
+					return through(x.X)
+				case *ast.StarExpr:
+					if fld, ok := ptrOf(x.X); ok {
+						return fld, true
+					}
+					return through(x.X)
+				}
+				return "", false
+			}
+			ast.Inspect(fd.Body, func(n ast.Node) bool {
+				switch x := n.(type) {
+				case *ast.AssignStmt:
+					if len(x.Lhs) == len(x.Rhs) {
+						for i, l := range x.Lhs {
+							if id, ok := l.(*ast.Ident); ok {
+								if fld, ok := ptrOf(x.Rhs[i]); ok {
+									aliases[id.Name] = fld
+								}
+							}
+						}
+					}
+					for _, l := range x.Lhs {
+						if fld, ok := through(l); ok {
+							out = append(out, [4]string{fd.Name.Name, recvT, fld, exprString(l)})
+						}
+					}
+				case *ast.IncDecStmt:
+					if fld, ok := through(x.X); ok {
+						out = append(out, [4]string{fd.Name.Name, recvT, fld, exprString(x.X)})
+					}
+				case *ast.ValueSpec:
+					for i, id := range x.Names {
+						if i < len(x.Values) {
+							if fld, ok := ptrOf(x.Values[i]); ok {
+								aliases[id.Name] = fld
+							}
+						}
+					}
+				}
+				return true
+			})
+		}
+	}
+	return out
 }
 
 type access struct {
